@@ -198,9 +198,13 @@ def cmdGzipQ (toks : List String) : Option String := do
 def cmdSBuild (toks : List String) : Option String := do
   let head := (← kv toks "head") == "1"
   let ae ← optBytes (← kv toks "ae")
-  let chunk ← (← kv toks "chunk").toNat?
-  let level ← (← kv toks "level").toNat?
-  match streamingBuild head ae chunk level with
+  -- `calls=c4096,l0,l6` (`-` for none): the builder calls in order
+  let callsS ← kv toks "calls"
+  let calls ← (if callsS == "-" then [] else callsS.splitOn ",").mapM fun (t : String) =>
+    if t.startsWith "c" then (t.drop 1).toString.toNat?.map BCall.chunkSize
+    else if t.startsWith "l" then (t.drop 1).toString.toNat?.map BCall.gzipLevel
+    else none
+  match streamingBuildCalls head ae calls with
   | .panic => pure "PANIC"
   | .ok r =>
     let w := match r.writer with | .none => "none" | .raw => "raw" | .gzip => "gzip"
